@@ -538,10 +538,13 @@ class WFSA:
         byte_wfsa = self.spawn(keep_init=True, keep_stop=True)
 
         state_counter = 0
+        arc = None
 
         def get_new_state():
             nonlocal state_counter
-            state = f"_bytes{state_counter}"
+            # named after the arc being expanded, so that fresh states of different
+            # automata never coincide when their grammars are merged
+            state = ("_bytes", arc, state_counter)
             state_counter += 1
             return state
 
@@ -553,6 +556,7 @@ class WFSA:
                 if len(bs) == 1:
                     byte_wfsa.add_arc(i, bs[0], j, w)
                 else:  # Multi-byte transition
+                    arc = (i, a, j)
                     curr = get_new_state()
                     byte_wfsa.add_arc(i, bs[0], curr, self.R.one)
                     for b in bs[1:-1]:
